@@ -23,12 +23,14 @@ PROPS = {
         title='basic arithmetic correctly rounded', level='other', engines=[],
         claim='Proved (deductive, all inputs/precisions/modes): _normalize, _normalize1, from_man_exp, from_int, '
               'mpf_pos/neg/abs, mpf_add/mpf_sub (every path except the far-exponent sticky shortcut), python_mpf_mul, '
-              'python_mpf_mul_int, mpf_div special values and power-of-two divisors return the correctly rounded value '
-              '(order-theoretic spec CRound taken from the property text). Bounded stand-ins (never counted as proved): '
-              'the sticky-bit sub-cases of mpf_add (far-apart exponents) and of mpf_div / mpf_rdiv_int (general quotients), '
-              'checked natively against the same contract clause with exact integer arithmetic over enumerated domains.',
+              'python_mpf_mul_int, mpf_div and mpf_rdiv_int (all of it: special values, power-of-two divisors and general '
+              'quotients -- the sticky-bit lemma "rounding 2*floor(N/D)+1 one place lower rounds like N/D" is discharged '
+              'through a chain of small ghost assertions) return the correctly rounded value (order-theoretic spec CRound '
+              'taken from the property text). Bounded stand-in (never counted as proved): the sticky-bit shortcut of mpf_add '
+              'for far-apart exponents, checked natively against the same contract clause with exact integer arithmetic '
+              'over an enumerated domain.',
         note=KERNEL_NOTE + ' Not covered: mpf_sqrt, fsum/fdot, the context-level operator templates.',
-        technique='deductive VCs (z3) + bounded native contract evaluation for two declared sticky-bit gaps',
+        technique='deductive VCs (z3) + bounded native contract evaluation for one declared sticky-bit gap (mpf_add, far-apart exponents)',
         explanation='mixed: deductive proof for all clauses except the declared gaps (coverage.bounded lists domains and counts)'),
     'C05': dict(
         title='comparisons exact, equal numbers hash equally', level='proof', engines=[],
